@@ -3,7 +3,8 @@
    (parser.go ParseWithClaims / ParseUnverified, claims.go RegisteredClaims.Valid, verifyAud)
    and go-openapi's apiKey authenticator (security/authenticator.go APIKeyAuth, middleware/context.go
    Authorize).  Base64 / JSON decoding and the HMAC computation are the library's: the harness
-   records how it built each bearer as the [shape] / [alg] enumerations and the [sig_ok] bit.
+   records how it built each bearer as the [shape] / [alg] enumerations and the key it signed with
+   ([b_signed]); whether that verifies is decided here, against the configured secret.
    Booking ids are interned to N (0 = the empty string); time is Unix seconds in Z.
    Models only, no proofs. *)
 From Relay Require Import Base.Prelude.
@@ -45,9 +46,16 @@ Record claims := mkclaims {
 Record bearer := mkbearer {
   b_shape : shape;
   b_alg : alg;
-  b_sig_ok : bool;     (* oracle: Method.Verify(signing input, signature, relay secret) = nil *)
+  b_header : list string;  (* names of the further JOSE header members (kid, jku, x5c, jwk, crit, ...): read by nobody *)
+  b_signed : option N;     (* Some k: the signature is the HMAC (of the alg named) of the signing input under key k
+                              (keys interned by the harness; only equality matters); None: it is no such HMAC under
+                              any key (truncated, garbage, computed with another hash than the alg named) *)
   b_claims : claims
 }.
+
+(* jwt's Method.Verify under the relay secret: HMAC is modelled as "verifies exactly under the key it was made with" *)
+Definition sig_ok (secret : N) (b : bearer) : bool :=
+  match b_signed b with Some k => (k =? secret)%N | None => false end.
 
 (* the Authorization header: absent or empty -> the authenticator does not apply *)
 Inductive credential :=
@@ -83,21 +91,21 @@ Inductive auth_result :=
 (* the order is the library's: ParseUnverified (segments, header, claims, alg lookup), key function
    (HMAC only), then claims.Valid and Method.Verify (both evaluated, either fails the parse),
    then access.go's audience test *)
-Definition validate_bearer (now : Z) (host : string) (b : bearer) : auth_result :=
+Definition validate_bearer (now : Z) (host : string) (secret : N) (b : bearer) : auth_result :=
   match b_shape b with
   | SWell =>
       if negb (alg_registered (b_alg b)) then AuthError
       else if negb (is_hmac (b_alg b)) then AuthError
-      else if negb (claims_time_ok now (b_claims b) && b_sig_ok b) then AuthError
+      else if negb (claims_time_ok now (b_claims b) && sig_ok secret b) then AuthError
       else if negb (verify_aud (c_aud (b_claims b)) host) then AuthError
       else Principal (b_claims b)
   | _ => AuthError
   end.
 
-Definition validate_header (now : Z) (host : string) (cr : credential) : auth_result :=
+Definition validate_header (now : Z) (host : string) (secret : N) (cr : credential) : auth_result :=
   match cr with
   | NoHeader => AuthNone
-  | Bearer b => validate_bearer now host b
+  | Bearer b => validate_bearer now host secret b
   end.
 
 (* time.Time.IsZero() of time.Unix(x, 0): true only for year 1 *)
